@@ -1105,7 +1105,10 @@ void IoHarness::exec_c08(const Json &plan, Env &env) {
 			if (!symptom.empty()) {
 				Json ex = Json::object(); ex["op"] = Json("fault"); ex["faults"] = faults;
 				ctx.aux["explicit"] = ex;
-				ctx.violate(std::string("C08|success-implies-complete|") + opn + "|" + fk + "|reported-success-file-incomplete", "injected " + desc + ": " + symptom);
+				// what was injected and what the file looks like are part of the signature: a finding about one combination
+				// (e.g. a transient EINTR that leaves a full-length file with a hole) must not cover the others
+				std::string shape = !left.exists ? "no-file" : left.bytes.size() < final_img.size() ? "short-file" : left.bytes.size() == final_img.size() ? "full-length" : "long-file";
+				ctx.violate(std::string("C08|success-implies-complete|") + opn + "|" + fk + "|reported-success-file-incomplete|" + fl[0].err + "|" + shape, "injected " + desc + ": " + symptom);
 				return true;
 			}
 			ctx.count("probe:fault_tolerated_file_complete");
